@@ -4,6 +4,26 @@ From V Require Import Base.Util Gen.C06_tables_gen C06.Model C06.Spec.
 From V Require C20.Model.
 Local Open Scope N_scope.
 
+(** [u8 "…"]: the harness writes file contents as Coq string literals holding the UTF-8 bytes; this
+    turns them back into Unicode scalar values (well-formed input only: the harness writes Rust [String]s) *)
+Fixpoint utf8_dec (b : list N) : str :=
+  match b with
+  | [] => []
+  | c :: r =>
+      if c <? 128 then c :: utf8_dec r
+      else if c <? 224 then
+        match r with c1 :: r' => ((c - 192) * 64 + (c1 - 128)) :: utf8_dec r' | _ => [] end
+      else if c <? 240 then
+        match r with c1 :: c2 :: r' => ((c - 224) * 4096 + (c1 - 128) * 64 + (c2 - 128)) :: utf8_dec r' | _ => [] end
+      else
+        match r with
+        | c1 :: c2 :: c3 :: r' => ((c - 240) * 262144 + (c1 - 128) * 4096 + (c2 - 128) * 64 + (c3 - 128)) :: utf8_dec r'
+        | _ => []
+        end
+  end.
+Definition u8 (x : String.string) : str := utf8_dec (s x).
+Arguments u8 x%string_scope.
+
 (** one emitted map of a CLI project, as the harness read it back from disk *)
 Record mapfile := mk_mapfile {
   mf_output : str;                 (* absolute path of the generated file G *)
@@ -14,9 +34,12 @@ Record mapfile := mk_mapfile {
   mf_sources : list str;           (* "sources" *)
   mf_names : list str;             (* "names" *)
   mf_mappings : str;               (* "mappings" *)
-  mf_defs : list (str * str * N * N * N * N)
+  mf_defs : list (str * str * N * N * N * N);
      (* definitions printed in G: (generated identifier, source file path, header start line/col,
         header end line/col (exclusive)); positions in Unicode scalar values as the parser reports them *)
+  mf_tol_unmapped : bool;          (* lenient twin of a case: ignore segments with source index -1 and the
+                                      definitions of files that are not in "sources" *)
+  mf_tol_scalar_cols : bool        (* lenient twin: read original columns in Unicode scalar values, not UTF-16 *)
 }.
 
 Inductive case :=
@@ -151,20 +174,21 @@ Definition nsources_of (fmap : option (list N)) : N :=
 Definition find_file (files : list (str * str)) (path : str) : option str :=
   option_map snd (find (fun f => str_eqb (fst f) path) files).
 
-(** [sources[k]], resolved relative to the generated file (the map sits next to it), is one of the
-    GraphQL input files; returns its contents *)
-Definition source_text (files : list (str * str)) (output : str) (sources : list str) (k : Z) : option (str * str) :=
+(** for every entry of "sources": the path it resolves to relative to the generated file (the map
+    sits next to it), the contents of that GraphQL input file, and its token starts *)
+Definition source_table (files : list (str * str)) (output : str) (sources : list str)
+  : list (option (str * str * list tokpos)) :=
+  map (fun rel => let p := C20.Model.resolve_s output rel in
+                  option_map (fun t => (p, t, token_starts t)) (find_file files p)) sources.
+
+Definition source_entry (tab : list (option (str * str * list tokpos))) (k : Z) : option (str * str * list tokpos) :=
   if (k <? 0)%Z then None
-  else match nth_error sources (Z.to_nat k) with
-       | None => None
-       | Some rel => let p := C20.Model.resolve_s output rel in
-                     option_map (fun t => (p, t)) (find_file files p)
-       end.
+  else match nth_error tab (Z.to_nat k) with Some (Some e) => Some e | _ => None end.
 
-Definition at_token (toks : list tokpos) (l c : Z) : bool :=
-  existsb (fun t => (Z.of_N (t_line t) =? l)%Z && (Z.of_N (t_colc t) =? c)%Z) toks.
+Definition at_token (scalar_cols : bool) (toks : list tokpos) (l c : Z) : bool :=
+  existsb (fun t => (Z.of_N (t_line t) =? l)%Z &&
+                    (Z.of_N (if scalar_cols then t_colc t else t_col16 t) =? c)%Z) toks.
 
-(** the name token that starts at (l, c), or the one following the keyword that starts there *)
 Fixpoint name_at (t : str) : str :=
   match t with
   | c :: r => if is_name_cont c then c :: name_at r else []
@@ -178,43 +202,44 @@ Fixpoint skip_ignored (t : str) : str :=
 Fixpoint drop_chars (n : nat) (t : str) : str :=
   match n, t with O, _ => t | S k, _ :: r => drop_chars k r | _, [] => [] end.
 
-Definition text_from (t : str) (l c : Z) : option str :=
-  match nth_error (lines_of t) (Z.to_nat l) with
-  | Some ln => Some (drop_chars (Z.to_nat c) ln)
-  | None => None
-  end.
+(** the text of line [l] from column [c] on *)
+Definition text_from (scalar_cols : bool) (t : str) (l c : Z) : option str :=
+  if (l <? 0)%Z || (c <? 0)%Z then None
+  else match nth_error (lines_of t) (Z.to_nat l) with
+       | Some ln => if scalar_cols then Some (drop_chars (Z.to_nat c) ln) else drop_utf16 (Z.to_N c) ln
+       | None => None
+       end.
 
-(** a named segment at original position (l, c): the token there is the name itself, or a keyword
-    of a definition and the name is the next name token that is not itself a keyword-position
-    (operation/fragment/type definitions: [query Name], [fragment Name], [type Name], …; an anonymous
-    construct never gets a name) *)
-Definition name_matches (t : str) (l c : Z) (nm : str) : bool :=
-  match text_from t l c with
+(** a named segment at original position (l, c): the token there is the name itself (an identifier or a
+    keyword mapped under its own text), or it is the keyword / sigil ([query], [fragment], [type], [@], [$])
+    of the construct and the name is the next token *)
+Definition name_matches (scalar_cols : bool) (t : str) (l c : Z) (nm : str) : bool :=
+  match text_from scalar_cols t l c with
   | None => false
   | Some rest =>
       let w := name_at rest in
       str_eqb w nm ||
-      (let rest' := skip_ignored (drop_chars (length w) rest) in
-       negb (match w with [] => true | _ => false end) && str_eqb (name_at rest') nm)
+      str_eqb (name_at (skip_ignored (drop_chars (match w with [] => 1%nat | _ => length w end) rest))) nm
   end.
 
-Definition seg_orig_ok (files : list (str * str)) (m : mapfile) (gs : list seg) (g : seg) : bool :=
+Definition seg_orig_ok (tab : list (option (str * str * list tokpos))) (m : mapfile) (gs : list seg) (g : seg) : bool :=
   match g_orig g with
   | None => true
   | Some (sr, ol, oc, nm) =>
-      match source_text files (mf_output m) (mf_sources m) sr with
+      if mf_tol_unmapped m && (sr =? -1)%Z then true else
+      match source_entry tab sr with
       | None => false
-      | Some (_, t) =>
-          let toks := token_starts t in
+      | Some (_, t, toks) =>
+          let sc := mf_tol_scalar_cols m in
           match nm with
           | Some k =>
-              at_token toks ol oc &&
+              at_token sc toks ol oc &&
               match (if (k <? 0)%Z then None else nth_error (mf_names m) (Z.to_nat k)) with
-              | Some n => name_matches t ol oc n
+              | Some n => name_matches sc t ol oc n
               | None => false
               end
           | None =>
-              at_token toks ol oc ||
+              at_token sc toks ol oc ||
               (* range-closing segment: just past the name of a named segment with the same origin line *)
               existsb (fun h => match g_orig h with
                                 | Some (sr', ol', oc', Some k') =>
@@ -229,24 +254,28 @@ Definition seg_orig_ok (files : list (str * str)) (m : mapfile) (gs : list seg) 
       end
   end.
 
+Definition pos_leb (l0 c0 : N) (l c : Z) : bool := ((Z.of_N l0 <? l) || ((Z.of_N l0 =? l) && (Z.of_N c0 <=? c)))%Z.
+Definition pos_ltb (l c : Z) (l1 c1 : N) : bool := ((l <? Z.of_N l1) || ((l =? Z.of_N l1) && (c <? Z.of_N c1)))%Z.
+
 (** a definition printed in G has a named segment whose generated text is its identifier and whose
     origin lies in the definition's header, in the right file *)
-Definition def_mapped (files : list (str * str)) (m : mapfile) (lines : list str) (gs : list seg)
+Definition def_mapped (tab : list (option (str * str * list tokpos))) (m : mapfile) (lines : list str) (gs : list seg)
            (d : str * str * N * N * N * N) : bool :=
   let '(ident, path, l0, c0, l1, c1) := d in
+  (mf_tol_unmapped m && negb (existsb (fun e => match e with Some (p, _, _) => str_eqb p path | None => false end) tab)) ||
   existsb (fun g =>
     match g_orig g with
     | Some (sr, ol, oc, Some _) =>
-        text_at lines g ident &&
-        match source_text files (mf_output m) (mf_sources m) sr with
-        | Some (p, _) =>
-            str_eqb p path &&
-            ((Z.of_N l0 <? ol) || ((Z.of_N l0 =? ol) && (Z.of_N c0 <=? oc)))%Z &&
-            ((ol <? Z.of_N l1) || ((ol =? Z.of_N l1) && (oc <? Z.of_N c1)))%Z
+        match source_entry tab sr with
+        | Some (p, _, _) => str_eqb p path && pos_leb l0 c0 ol oc && pos_ltb ol oc l1 c1 && text_at lines g ident
         | None => false
         end
     | _ => false
     end) gs.
+
+Definition seg_refs_ok_tol (m : mapfile) (g : seg) : bool :=
+  (mf_tol_unmapped m && match g_orig g with Some (sr, _, _, _) => (sr =? -1)%Z | None => false end) ||
+  seg_refs_ok (N.of_nat (length (mf_sources m))) (N.of_nat (length (mf_names m))) g.
 
 Definition map_holds (files : list (str * str)) (m : mapfile) : bool :=
   mf_json_ok m &&
@@ -254,10 +283,12 @@ Definition map_holds (files : list (str * str)) (m : mapfile) : bool :=
   | None => false
   | Some gs =>
       let lines := lines_of (mf_text m) in
+      let tab := source_table files (mf_output m) (mf_sources m) in
       segs_sorted gs && forallb (seg_in_text lines) gs &&
-      forallb (seg_refs_ok (N.of_nat (length (mf_sources m))) (N.of_nat (length (mf_names m)))) gs &&
-      forallb (seg_orig_ok files m gs) gs &&
-      forallb (def_mapped files m lines gs) (mf_defs m)
+      forallb (seg_refs_ok_tol m) gs &&
+      forallb (fun e => match e with Some _ => true | None => false end) tab &&
+      forallb (seg_orig_ok tab m gs) gs &&
+      forallb (def_mapped tab m lines gs) (mf_defs m)
   end.
 
 Definition holds (c : case) : bool :=
